@@ -188,7 +188,9 @@ class Program:
             el = np.asarray(next(iter(x.blocks.values()))).reshape(-1)[0]
             if np.isfinite(el) and 1e-100 < abs(el) < 1e100:
                 names += ["div_scaled_self", "div_scaled_self"]
-        names += ["tensordot_scalar", "copy_copy", "deepcopy", "pickle_roundtrip"]
+        names += ["tensordot_scalar", "copy_copy", "deepcopy", "pickle_roundtrip", "display"]
+        if nd == 0:
+            names += ["display", "display"]
         if nd >= 1 and all(ix.subinfo is None for ix in x.indices):
             names += ["add_ragged"]
         if nd in (1, 2) and sym in ("U1", "U1U1", "Z4") and x.indices[0].subinfo is None and not ferm:
@@ -242,6 +244,36 @@ class Program:
                 return a
 
             return name, [x], f, I(inplace=True)
+        if name == "display":
+            # read-only Python protocols: repr / str / format, and the read-only attributes a
+            # debugger or a notebook shows
+            how = rng.choice(["repr", "repr", "str", "format", "attributes", "inspect"])
+            if how == "inspect":
+                # the library's own read-only inspection methods (their verdicts are not judged
+                # here - only that looking does not touch)
+                def f(a):
+                    for n_, args_ in (("check", ()), ("get_sparsity", ()), ("get_params", ()), ("sizes", None), ("check_chargemaps_aligned", ()), ("is_valid_sector", (next(iter(a.blocks), ()),))):
+                        try:
+                            v_ = getattr(a, n_)
+                            if args_ is not None:
+                                v_(*args_)
+                        except Exception:
+                            pass
+                    for ix_ in getattr(a, "indices", ()):
+                        try:
+                            ix_.check(), ix_.sizes, ix_.num_charges, repr(ix_), ix_.matches(ix_.conj())
+                        except Exception:
+                            pass
+                    return 0
+
+                return "display:inspect", [x], f, I(dtype=None)
+            if how == "attributes":
+                def f(a):
+                    return tuple(repr(getattr(a, n_, None)) for n_ in ("shape", "ndim", "size", "dtype", "backend", "num_blocks", "sectors", "charge", "signature", "duals", "is_fermionic")) and 0
+
+                return "display:attributes", [x], f, I(dtype=None)
+            fn_ = {"repr": repr, "str": str, "format": (lambda a: "{}".format(a))}[how]
+            return "display:" + how, [x], (lambda a: len(fn_(a)) * 0), I(dtype=None)
         if name == "item":
             return name, [x], (lambda a: a.item()), I(dtype="scalar")
         if name == "item_complex":
